@@ -19,6 +19,11 @@ Lemma gen_hash_names_plain :
   ident_shape (hash_prefix ++ "0123456789") = true /\ (4 <= hash_len)%nat.
 Proof. split; [vm_compute; reflexivity | vm_compute; repeat constructor]. Qed.
 
+(** the optimizer's qualify step is told not to substitute select aliases into WHERE / sibling items (the repair
+    of the alias-capture defects, /repo 9853fb2): a regression of that option breaks this obligation *)
+Lemma gen_no_alias_expansion : optimize_expands_alias_refs = false.
+Proof. reflexivity. Qed.
+
 (** * the property at full strength *)
 Section Property.
   (** environment: sqlglot's generator, the optimizer, the re-hashing, the engine's dialect object, and what
@@ -156,7 +161,8 @@ Proof.
   - vm_compute. discriminate.
 Qed.
 
-(** (iii) WHERE captured by a select alias:  df.where(a > 0).select((a - 5).alias('a'))  *)
+(** (iii) WHERE captured by a select alias:  df.where(a > 0).select((a - 5).alias('a'))  -- what the optimizer
+    returned before the repair 9853fb2; kept as a witness that the full statement needs the checker *)
 Theorem C03_refuted_where_alias_capture :
   exists raw opt input,
     wf_frame input /\ equiv_check (cols input) raw opt = false /\ eval_chain raw input <> eval_chain opt input.
